@@ -38,8 +38,19 @@ Definition obs_step := (list event * nat * nat)%type.
 Definition step_agrees (model : list event) (o : obs_step) : bool :=
   let '(cells, nsus, npow) := o in
   let mc := filter is_cell model in
-  subset mc cells && subset cells mc && Nat.eqb (length mc) (length cells)
-  && Nat.eqb (length (filter is_sus model)) nsus && Nat.eqb (length (filter is_pow model)) npow.
+  subset mc cells && subset cells mc && Nat.eqb (length mc) (length cells).
+(* the two lru tables memoise pure functions: WHEN an entry is first computed is immaterial to the property (an implementation that skips a
+   computation fills its table later or never), so their miss counters are compared cumulatively - at every point of the history the
+   implementation has made at most as many new entries as the model allows *)
+Fixpoint prefix_le (am ai : nat) (ms is_ : list nat) : bool :=
+  match ms, is_ with
+  | [], [] => true
+  | m :: ms', i :: is' => Nat.leb (ai + i) (am + m) && prefix_le (am + m) (ai + i) ms' is'
+  | _, _ => false
+  end.
+Definition lru_agree (evs : list (list event)) (obs : list obs_step) : bool :=
+  prefix_le 0 0 (map (fun model => length (filter is_sus model)) evs) (map (fun o => snd (fst o)) obs)
+  && prefix_le 0 0 (map (fun model => length (filter is_pow model)) evs) (map (fun o => snd o) obs).
 
 Definition mat := list (list Q).
 Definition omat_close (m i : option mat) : bool :=
@@ -71,4 +82,5 @@ Definition c12_chk (c : c12_case) : bool :=
   let '(fin, evs) := trace sc (map fst steps) init in
   flags
   && list_eqb step_agrees evs (map snd steps)
+  && lru_agree evs (map snd steps)
   && final_agrees sc init fin fin_obs.
